@@ -746,24 +746,6 @@ func (s *scen) twinOracle(dA, dB []muxdrv.KV, ti txInfo, o *Obs) (viol []string)
 	return viol
 }
 
-// findingEvidenceHash: submitEvidence (roothash/transactions.go:262-276) stores the evidence hash
-// with state.SetEvidenceHash and only then calls onEvidenceRuntimeEquivocation, which returns an
-// error when the accused key is no registered node (slashing.go:54-63): the transaction fails,
-// the hash stays.
-const findingEvidenceHash = "C08:evidence-hash-stored-before-failing-slash"
-
-func isEvidenceHashFinding(ti txInfo, o *Obs, viol []string) bool {
-	if !ti.decoded || ti.tx.Method != roothash.MethodEvidence || len(o.OtherDiff) == 0 || len(viol) != len(o.OtherDiff) {
-		return false
-	}
-	for _, k := range o.OtherDiff {
-		if !strings.HasPrefix(k, "24") { // roothash evidenceKeyFmt
-			return false
-		}
-	}
-	return true
-}
-
 // runTwin executes one twin case. It returns the observation, the analysis and violations.
 func (s *scen) runTwin(cs *Case) (o *Obs, ti txInfo, viol []string, err error) {
 	raw, _ := hex.DecodeString(cs.Tx)
@@ -1785,14 +1767,7 @@ func main() {
 		} else {
 			sum.Count("not_failing_label", class)
 		}
-		if len(viol) > 0 && isEvidenceHashFinding(ti, o, viol) {
-			// a genuine defect of the unchanged tree, reported under a stable key (the driver
-			// matches it against known_findings.json; any OTHER difference stays a violation)
-			sum.Findings = append(sum.Findings, coqout.Finding{Key: findingEvidenceHash,
-				What:   "C08 violated: roothash.Evidence fails (slashing error) but the evidence hash it stored before stays in the state: " + strings.Join(viol, " | "),
-				Replay: cs})
-			sum.Count("finding", findingEvidenceHash)
-		} else if len(viol) > 0 {
+		if len(viol) > 0 {
 			// shrink: the same transaction alone at position 0
 			c2 := *cs
 			c2.Pos = 0
